@@ -98,7 +98,7 @@ def run(ctx: Ctx) -> Result:
     for pre in sets:
         for t in terms:
             for result in (None, ("r", None), ("r", 90 * S)):
-                for fin in (("return", 5), ("raise", 61), ("timeout",)):
+                for fin in (("return", 5), ("raise", 61), ("timeout",), ("outfail", 9003)):
                     for mx, tried in ((0, 0), (2, 0), (1, 1)):
                         if rng.random() < (0.6 if not ctx.thorough else 0.0):
                             continue
